@@ -130,6 +130,41 @@ def sowerExit {α : Type} (batchCases : List α) (counter batchCounter : Int) (f
   else
     .ok (batchCases, counter, batchCounter, files)
 
+def sowCombosHead (batchsizeArg numBatchesArg shuffleArg batchsize numBatches shuffle : Option Int) : Except PyErr (Option Int × Option Int × Option Int) :=
+  let batchsize := if batchsizeArg.isSome then
+      let batchsize : Option Int := batchsizeArg
+      batchsize
+    else
+      batchsize
+  let numBatches := if numBatchesArg.isSome then
+      let numBatches : Option Int := numBatchesArg
+      numBatches
+    else
+      numBatches
+  let shuffle := if shuffleArg.isSome then
+      let shuffle : Option Int := shuffleArg
+      shuffle
+    else
+      shuffle
+  .ok (batchsize, numBatches, shuffle)
+
+def sowCasesHead (batchsizeArg numBatchesArg batchsize numBatches shuffle : Option Int) : Except PyErr (Option Int × Option Int × Option Int) :=
+  let batchsize := if batchsizeArg.isSome then
+      let batchsize : Option Int := batchsizeArg
+      batchsize
+    else
+      batchsize
+  let numBatches := if numBatchesArg.isSome then
+      let numBatches : Option Int := numBatchesArg
+      numBatches
+    else
+      numBatches
+  .ok (batchsize, numBatches, shuffle)
+
+def sowCombosRunnerShuffle (shuffleArg selfShuffle : Option Int) : Option Int := selfShuffle
+
+def sowCasesRunnerShuffle (selfShuffle : Option Int) : Option Int := selfShuffle
+
 def calcCleanUp (cleanUp : Option Bool) (allowIncomplete : Bool) : Except PyErr (Option Bool × Bool) :=
   let cleanUp := if cleanUp.isNone then
       let cleanUp := (some (!allowIncomplete) : Option Bool)
